@@ -67,17 +67,13 @@ def cold_unit(name, reg=None):
     """a Unit for `name` that is NOT in its registry's string cache (built from the sympy
     expression, as `Unit.__mul__` etc. build their results), so that routes which look the
     string up in a shared `_unit_object_cache` are probed on their miss path"""
-    import sympy
     from unyt import Unit
+    from unyt._parsing import parse_unyt_expr
     from unyt.unit_registry import UnitRegistry
 
     if reg is None:
         reg = UnitRegistry()
-    try:
-        expr = Unit(name).expr
-    except Exception:  # noqa: BLE001 - a symbol only `reg` knows
-        expr = sympy.Symbol(name, positive=True)
-    return Unit(expr, registry=reg)
+    return Unit(parse_unyt_expr(name), registry=reg)
 
 
 def base_symbols():
@@ -208,3 +204,267 @@ def probe_route(route):
 FLAG_ORDER = ["keepsValues", "keepsDtype", "keepsClass", "unitSame", "unitByDisplayStr", "unitDataCarried",
               "unitCanonOnCanon", "unitCanonOnNon", "regSame", "keepsAdded", "keepsModifiedDefault", "keepsRemoved",
               "userRowCanonOnCanon", "userRowCanonOnNon", "dfltRowCanonOnCanon", "dfltRowCanonOnNon", "keepsUnitSystem"]
+
+
+# ---------------------------------------------------------------------------------------
+# observation helpers shared by the harness and by the replay snippets (this whole file is
+# embedded in every replay, so a replay runs exactly what the harness ran)
+
+
+def clear_caches():
+    """empty the process-wide lru caches of unyt (unit rules, EM check): a 'cold' start"""
+    import unyt.array as ua
+    import unyt.unit_object as uo
+
+    for mod in (ua, uo):
+        for v in vars(mod).values():
+            if callable(getattr(v, "cache_clear", None)):
+                v.cache_clear()
+
+
+def unit_descr(u):
+    return (str(u.expr), float(u.base_value), float(u.base_offset), str(u.dimensions))
+
+
+def outcome(f):
+    """value / unit / exception class of a follow-up"""
+    from unyt import Unit
+
+    try:
+        r = f()
+    except Exception as e:  # noqa: BLE001
+        return ("exc", type(e).__name__)
+    if isinstance(r, Unit):
+        return ("unit", unit_descr(r))
+    if hasattr(r, "units") and hasattr(r, "d"):
+        return ("q", np.asarray(r.d).tolist(), unit_descr(r.units), type(r).__name__)
+    if isinstance(r, np.ndarray) or np.isscalar(r):
+        return ("v", np.asarray(r).tolist())
+    return ("o", repr(r))
+
+
+def _close(a, b, rtol=1e-12):
+    if isinstance(a, (list, tuple)) and isinstance(b, (list, tuple)):
+        return len(a) == len(b) and all(_close(p, q, rtol) for p, q in zip(a, b))
+    if isinstance(a, complex) or isinstance(b, complex):
+        return abs(a - b) <= rtol * max(abs(a), abs(b))
+    if isinstance(a, float) or isinstance(b, float):
+        if isinstance(a, (str, bool)) or isinstance(b, (str, bool)):
+            return a == b
+        if a != a and b != b:
+            return True
+        if a == b:
+            return True
+        return abs(a - b) <= rtol * max(abs(a), abs(b))
+    return a == b
+
+
+def same_outcome(a, b):
+    return _close(a, b)
+
+
+def lut_entry(v):
+    return (float(v[0]), str(v[1]), float(v[2]), bool(v[4]))
+
+
+def is_derived(k, lut):
+    """k is a written-back SI-prefixed entry (prefix + a prefixable symbol of the same table)"""
+    from unyt._unit_lookup_table import default_unit_symbol_lut, unit_prefixes
+
+    if k in default_unit_symbol_lut:
+        return False
+    for p in ("da",) if k.startswith("da") else (k[:1],):
+        rest = k[len(p):]
+        if p in unit_prefixes and rest in lut and lut[rest][4]:
+            return True
+    return False
+
+
+def contents(reg):
+    """symbol -> entry, written-back prefixed entries left out"""
+    lut = reg.lut
+    return {k: lut_entry(v) for k, v in lut.items() if not is_derived(k, lut)}
+
+
+def canon_all(d):
+    """a dimension that is a bare base symbol IS the library's singleton.  (Compound dimension
+    objects are not looked at: sympy's own expression cache hands back whichever equal object was
+    built first in the process, so their identity is history-dependent even without persistence.)"""
+    import sympy
+    import unyt.dimensions as D
+
+    if isinstance(d, sympy.Symbol):
+        return any(d is b for b in D.base_dimensions)
+    return True
+
+
+def state_diff(q, r):
+    """the components of the persisted state in which the restored object `r` differs from the
+    original `q` (the direct oracle of the first half of the property)"""
+    from unyt._unit_lookup_table import default_unit_symbol_lut as dflt
+
+    out = []
+    qa, ra = np.asarray(q.d), np.asarray(r.d)
+    if qa.size != ra.size or not np.array_equal(qa.ravel(), ra.ravel(), equal_nan=True):
+        out.append("values")
+    if not (r.units == q.units) or unit_descr(r.units)[1:] != unit_descr(q.units)[1:] or r.units.expr != q.units.expr:
+        out.append("units")
+    if canon_all(q.units.dimensions) and not canon_all(r.units.dimensions):
+        out.append("identity")
+    R, Q = r.units.registry, q.units.registry
+    if R is not Q:
+        cr, cq = contents(R), contents(Q)
+        for k in sorted(set(cq) | set(cr)):
+            if cq.get(k) == cr.get(k):
+                continue
+            if k not in cr:
+                out.append("added-lost" if k not in dflt else "default-lost")
+            elif k not in cq:
+                out.append("removed-default-back" if k in dflt else "spurious-row")
+            else:
+                out.append("modified-default-reset" if k in dflt and cr[k] == lut_entry(dflt[k]) else "row-changed")
+        for k, v in Q.lut.items():
+            if k in R.lut and canon_all(v[1]) and not canon_all(R.lut[k][1]):
+                out.append("identity")
+                break
+        if getattr(R.unit_system, "name", None) != getattr(Q.unit_system, "name", None):
+            out.append("unit-system")
+    seen = []
+    for o in out:
+        if o not in seen:
+            seen.append(o)
+    return seen
+
+
+# ---------------------------------------------------------------------------------------
+# attribution of a behavioural difference to a difference of the persisted state, by repairing
+# ONE component of the restored object at a time and running the follow-up again
+
+
+def intern_dims(d):
+    """the same dimension expression built from the library's singleton symbols"""
+    import unyt.dimensions as D
+
+    if not hasattr(d, "free_symbols"):
+        return d
+    m = {}
+    for s in d.free_symbols:
+        for b in D.base_dimensions:
+            if b == s and b is not s:
+                m[s] = b
+    if not m:
+        return d
+    if d in m:
+        return m[d]
+    return d.xreplace(m)
+
+
+REPAIRS = ["cache-seeded", "identity", "units", "modified-default-reset", "row-changed",
+           "removed-default-back", "added-lost", "default-lost", "spurious-row", "unit-system"]
+
+
+def repair(r, q, causes):
+    """a copy of the restored object `r` in which the listed components are put back to what the
+    original `q` has; the registry is always rebuilt (empty string cache)"""
+    from unyt import Unit
+    from unyt.unit_registry import UnitRegistry
+
+    R, Q = r.units.registry, q.units.registry
+    lut = dict(R.lut)
+    allc = "all" in causes
+    if allc or "identity" in causes:
+        lut = {k: (v[0], intern_dims(v[1])) + tuple(v[2:]) for k, v in lut.items()}
+    cq, cr = contents(Q), contents(R)
+    for k in set(cq) | set(cr):
+        if cq.get(k) == cr.get(k):
+            continue
+        if k not in cr:
+            if allc or "added-lost" in causes or "default-lost" in causes:
+                lut[k] = Q.lut[k]
+        elif k not in cq:
+            if allc or "removed-default-back" in causes or "spurious-row" in causes:
+                lut.pop(k, None)
+        elif allc or "modified-default-reset" in causes or "row-changed" in causes:
+            lut[k] = Q.lut[k]
+            for kk in [x for x in lut if x != k and is_derived(x, lut) and x.endswith(k)]:
+                lut.pop(kk, None)
+    us = getattr(Q.unit_system if (allc or "unit-system" in causes) else R.unit_system, "name", "mks")
+    reg = UnitRegistry(lut=lut, add_default_symbols=False, unit_system=us)
+    u = r.units
+    dims = intern_dims(u.dimensions) if (allc or "identity" in causes) else u.dimensions
+    src = q.units if (allc or "units" in causes) else u
+    nu = Unit(u.expr, base_value=src.base_value, base_offset=src.base_offset, dimensions=dims if src is u else intern_dims(src.dimensions) if allc else src.dimensions,
+              registry=reg)
+    return type(r)(np.array(r.d, copy=True), nu)
+
+
+def attribute(build, opsrc, order, env):
+    """`build()` -> (q, r) fresh original and restored objects.  None when the follow-up `opsrc`
+    gives the same outcome on both; else the single component of the state whose repair makes the
+    outcomes agree, 'several' when only repairing all of them does, 'unexplained' when even that
+    does not"""
+
+    def run(fix):
+        q, r = build()
+        if fix is not None:
+            r = repair(r, q, fix)
+        clear_caches()
+
+        def op(x):
+            e = dict(env)
+            e["x"] = x
+            e["R"] = x.units.registry
+            return outcome(lambda: eval(opsrc, e))  # noqa: S307
+
+        if order == "orig-first":
+            a = op(q)
+            b = op(r)
+        else:
+            b = op(r)
+            a = op(q)
+        return a, b, q, r
+
+    a, b, q, r = run(None)
+    if same_outcome(a, b):
+        return None
+    diffs = state_diff(q, r)
+    for c in ["cache-seeded"] + [d for d in REPAIRS if d in diffs]:
+        a, b, _q, _r = run({c})
+        if same_outcome(a, b):
+            return c
+    a, b, _q, _r = run({"all"})
+    return "several" if same_outcome(a, b) else "unexplained"
+
+
+def attribute_history(build, opsrc, env):
+    """the ORIGINAL's outcome alone vs after the same call on the restored object: None when equal,
+    else the component whose repair (on the restored object) makes the original unaffected"""
+
+    def op(x):
+        e = dict(env)
+        e["x"] = x
+        e["R"] = x.units.registry
+        return outcome(lambda: eval(opsrc, e))  # noqa: S307
+
+    q, r = build()
+    clear_caches()
+    alone = op(q)
+
+    def after(fix):
+        q, r = build()
+        if fix is not None:
+            r = repair(r, q, fix)
+        clear_caches()
+        op(r)
+        return op(q), q, r
+
+    o, q, r = after(None)
+    if same_outcome(alone, o):
+        return None
+    diffs = state_diff(q, r)
+    for c in ["cache-seeded"] + [d for d in REPAIRS if d in diffs]:
+        o, _q, _r = after({c})
+        if same_outcome(alone, o):
+            return c
+    o, _q, _r = after({"all"})
+    return "several" if same_outcome(alone, o) else "unexplained"
